@@ -2,7 +2,7 @@
    Only the property theorems, closed by `exact`, with their assumptions and non-vacuity examples. *)
 From Coq Require Import List NArith ZArith Bool Ring Permutation.
 From QI Require Import Base.Bits Base.ListAux Base.Scalar Model.Outcome Model.Validate Model.Gates Model.GpuKernels Spec.Embed
-  Proofs.C17a Proofs.C17b Proofs.C17c Run.ZInst.
+  Proofs.C17a Proofs.C17b Proofs.C17c Proofs.C17d Run.ZInst.
 Import ListNotations.
 Open Scope N_scope.
 
@@ -41,17 +41,45 @@ Theorem C17_diag_kernel :
 Proof. exact @diag_kernel_get. Qed.
 Print Assumptions C17_diag_kernel.
 
-(* the launch the host performs for H, X, Y, Z, S, Sdag, T, Tdag, P, RX, RY, RZ (kernel, arguments, global work size)
-   computes, under any work-item order, the operator's specification: the embedded matrix that the CPU paths compute
-   (C01). hk is the kernel's 1/sqrt 2 constant, tq the host's (cos, sin) of pi/4. *)
+(* swap.cl / match_gate.cl rebuild their amplitude indices with a loop over the bit positions; that loop is the double
+   zero-bit insertion the CPU paths use (with bit lo set for swap.cl) *)
+Theorem C17_scatter_is_insertion :
+  forall k lo hi sl, lo < hi -> forall n, hi < n -> k < 2 ^ (n - 2) ->
+  scatter (N.to_nat n) 0 0 k lo hi sl 0 = if sl then setbit (dbl k lo hi) lo else dbl k lo hi.
+Proof. exact scatter_is_insertion. Qed.
+Print Assumptions C17_scatter_is_insertion.
+
+(* swap.cl: no race (any order of the 2^(n-2) work-items) and the buffer equals the one either CPU path computes,
+   for every register, pair of distinct targets in either order, control list avoiding them, and buffer (laws-free) *)
+Theorem C17_swap_kernel_eq_cpu :
+  forall (T : Type) (O : sops T) n t1 t2 cs, t1 < n -> t2 < n -> t1 <> t2 -> ~ In t1 cs -> ~ In t2 cs ->
+  forall par order v, length v = N.to_nat (2 ^ n) -> Permutation (Nrange (2 ^ (n - 2))) order ->
+  launch (k_swap O n t1 t2 cs) order v = apply_swap O par n t1 t2 cs v.
+Proof. exact @swap_kernel_eq_cpu. Qed.
+Print Assumptions C17_swap_kernel_eq_cpu.
+
+(* match_gate.cl (after the repair): no race, and the buffer equals the CPU loop's (ring level: the kernel groups the
+   products differently) *)
+Theorem C17_match_kernel_eq_cpu :
+  forall (T : Type) (O : sops T), ring_of O ->
+  forall n q cs c s (e1 e2 : C (T:=T)), q + 1 < n -> ~ In q cs -> ~ In (q + 1) cs ->
+  forall par order v, length v = N.to_nat (2 ^ n) -> Permutation (Nrange (2 ^ (n - 2))) order ->
+  launch (k_match O n q (q + 1) cs c s e1 e2) order v = apply_match O par c s e1 e2 n q cs v.
+Proof. exact @match_kernel_eq_cpu. Qed.
+Print Assumptions C17_match_kernel_eq_cpu.
+
+(* For EVERY operator with an OpenCL branch (H, X, Y, Z, S, Sdag, T, Tdag, P, RX, RY, RZ, SWAP, Matchgate - all 11
+   kernels): the launch the host performs (kernel, arguments, global work size) computes, under any work-item order,
+   the operator's specification, i.e. what the CPU paths compute (C01). hk is the kernel's 1/sqrt 2 constant, tq the
+   host's (cos, sin) of pi/4. *)
 Theorem C17_gpu_eq_spec :
   forall (T : Type) (O : sops T), ring_of O ->
   forall (hk : T) (tq : T * T) (g : op (T:=T)) n ts cs it gws order v,
-  hk = inv_sqrt2 O -> tq = (inv_sqrt2 O, inv_sqrt2 O) -> has_pair_or_diag_kernel g = true ->
+  hk = inv_sqrt2 O -> tq = (inv_sqrt2 O, inv_sqrt2 O) ->
   gpu_launch O hk tq g n ts cs = Some (it, gws) ->
   args_valid g n ts cs = true -> length v = N.to_nat (2 ^ n) -> Permutation (Nrange gws) order ->
   launch it order v = spec_vec O g n ts cs v.
-Proof. exact @gpu_eq_spec. Qed.
+Proof. exact @gpu_eq_spec_all. Qed.
 Print Assumptions C17_gpu_eq_spec.
 
 (* non-vacuity: over the integers the controlled pauli_y launch on 3 qubits gives the same buffer in ascending,
